@@ -493,6 +493,11 @@ class ImmutableVersion(dns.zone.Version):
         c.seek(target, False)
         left = c.prev()
         assert left is not None
+        while left.value().is_glue():
+            # Names beneath an earlier delegation point are occluded, and
+            # cannot be a bound.
+            left = c.prev()
+            assert left is not None
         c.next()  # skip over left
         while True:
             right = c.next()
